@@ -708,7 +708,13 @@ def run_cases(ctx, comp, exe, cases, count=True):
     env = dict(ASAN_ENV)
     if comp.env:
         env.update(comp.env)
-    if getattr(comp, "fresh_process", False):
+    # black-box mode with one process per case: only the implementation needs it (the library's state cannot be reset from
+    # outside); the model and the monitor start every `case` from their initial state anyway and read their shard in one process
+    impl_per_case = bool(getattr(comp, "fresh_process", False) and getattr(comp, "_bb", False))
+    if impl_per_case:
+        nshards = min(NCPU, max(1, len(cases)))
+        shards = [cases[i::nshards] for i in range(nshards)]
+    elif getattr(comp, "fresh_process", False):
         # one process per case: state that survives across calls (statics, caches, lazily built tables) starts fresh
         nshards = len(cases)
         shards = [[c] for c in cases]
@@ -720,7 +726,15 @@ def run_cases(ctx, comp, exe, cases, count=True):
     def work(k):
         sh = shards[k]
         tag = "%s-%d-%d" % (comp.name, k, time.time_ns() % 1000000)
-        io, ic = run_stream([exe] + list(comp.impl_cmd_extra), sh, ctx.tmp, tag + "i", env=env)
+        if impl_per_case:
+            io, ic = {}, {}
+            for i, case in enumerate(sh):
+                o1, c1 = run_stream([exe] + list(comp.impl_cmd_extra), [case], ctx.tmp, "%si%d" % (tag, i), env=env)
+                io[i] = o1.get(0, [])
+                if 0 in c1:
+                    ic[i] = c1[0]
+        else:
+            io, ic = run_stream([exe] + list(comp.impl_cmd_extra), sh, ctx.tmp, tag + "i", env=env)
         mo, mc = run_stream([PMODEL] + list(comp.pmodel_args), sh, ctx.tmp, tag + "m")
         vo = None
         if comp.monitor_args:
